@@ -36,6 +36,7 @@ pub struct CK {
     now: u64,
     ids: Vec<String>,
     dup: bool,
+    max_cp: usize,
 }
 
 impl CK {
@@ -53,7 +54,7 @@ impl CK {
         } else {
             open_store(&dir, max_cp)
         };
-        CK { s, dir, keys, now: 1, ids: vec![], dup: false }
+        CK { s, dir, keys, now: 1, ids: vec![], dup: false, max_cp }
     }
     fn obs(&self, ok: bool) -> Value {
         let mut c = Map::new();
@@ -99,6 +100,11 @@ impl Model for CK {
             "put_ttl" => self.s.put_with_ttl(k, v, Duration::from_millis(l["ttl"].as_u64().unwrap())).is_ok(),
             "update" => self.s.update(k, v).is_ok(),
             "delete" => self.s.delete(k).is_ok(),
+            "reopen" => {
+                // a restart: a new store on the same directory (the old object is dropped)
+                self.s = open_store(&self.dir, self.max_cp);
+                true
+            }
             "tick" => {
                 self.now += l["d"].as_u64().unwrap();
                 set_clock_ms(Some(BASE_MS + self.now));
